@@ -158,6 +158,27 @@ def machine (c : Cfg) : Machine St := ⟨feed c, resume c, St.closed⟩
 /-- `sendLine(line)`: `transport.write(line + self.delimiter)` -/
 def send (c : Cfg) (line : Bytes) : Bytes := line ++ c.delim
 
+/-- Reference framing of a whole stream (no deliveries, no pauses).  `rawLeft = 0`: line mode —
+    cut a line at the leftmost delimiter; a complete line longer than `maxLen`, or an unfinished
+    one that can no longer end within it (`≥ maxLen + len(delimiter)` bytes without a
+    delimiter), is reported and closes; after the k-th line the script may close, or ask for
+    `raw` bytes.  `rawLeft > 0`: the next `rawLeft` bytes are raw data (reported as far as they
+    are there), then line mode again. -/
+def ref (c : Cfg) : Nat → Nat → Nat → Bytes → List Ev
+  | 0, _, _, _ => []
+  | fuel + 1, n, rawLeft, b =>
+    if b = [] then []
+    else if rawLeft > 0 then
+      Ev.raw (b.take rawLeft) :: ref c fuel n (rawLeft - min rawLeft b.length) (b.drop rawLeft)
+    else
+      match pyCut c.delim b with
+      | none => if b.length ≥ c.maxLen + c.delim.length then [Ev.exceeded b, Ev.close] else []
+      | some (line, rest) =>
+        if line.length > c.maxLen then [Ev.exceeded (line ++ c.delim ++ rest), Ev.close]
+        else Ev.line line :: (closeEv (c.script n) ++ ref c fuel (n + 1) (c.script n).raw rest)
+
+def refStream (c : Cfg) (b : Bytes) : List Ev := ref c (b.length + 1) 0 0 b
+
 end Recv
 
 end Twisted.Framing.Line
